@@ -17,7 +17,7 @@ use vh::simrun::*;
 fn main() {
     let args = Args::parse();
     let mut sh = Shard::new("C14", &args);
-    std::panic::set_hook(Box::new(|_| {}));
+    std::panic::set_hook(Box::new(|i| { if std::env::var("VH_PANICS").is_ok() { eprintln!("{i}"); } }));
     // thorough: all 65536 aliases (each shard takes its residue class)
     let n = args.cases(2_000, 65_536);
     for i in 0..n {
@@ -91,6 +91,7 @@ fn run_case(sh: &mut Shard, case: u64, rng: &mut Rng, alias: u16) {
         1 => (net.devs[0].eeprom.len() / 2 - wlen.div_ceil(2)) as u16,
         _ => rng.below((net.devs[0].eeprom.len() / 2 - 40) as u64) as u16,
     };
+    let wword = wword.min((net.devs[0].eeprom.len() / 2 - wlen.div_ceil(2)) as u16);
     let payload = rng.bytes(wlen);
     let seed = rng.u64();
     let scenario = json!({"case": case, "mode": mode, "alias": alias, "cmd_errors": cmd_errors, "busy_forever": busy_forever, "write_word": wword, "write_len": wlen});
